@@ -146,6 +146,29 @@ def r_ident(args):
         'Identifier(parts=%r) prints %s which parses back as %r' % (parts, text, got)
 
 
+IDENT_ALPHABET = ['a', 'Z', '1', '_', '$', ' ', '\n', '\r', '\t', '\x0b', '\x0c', '\x1c', '\x85', '\u2028', '.', '-', '\u00e9', '\u0661', "'", '"', '@']
+
+
+def ident_boundary(run, name='ident_atom[native boundary alphabet]'):
+    """cross-check of the CrossHair lemma ident_atom with native runs: CrossHair's regex model reads `$` as the strict end of the
+    string (probe: it CONFIRMS that `^\\w+$`.match(s) implies no line break in s, which is false for 'a\\n'), so a printer that decides
+    with such a pattern is not faithfully modelled.  Every part of length <= 3 over an alphabet of word characters, blanks, all the
+    characters Python treats as line boundaries, a dot, quotes and two non-ASCII letters / digits is printed and parsed back natively."""
+    import itertools
+    n, bad = 0, []
+    for k in (1, 2, 3):
+        for tup in itertools.product(IDENT_ALPHABET, repeat=k):
+            p = ''.join(tup)
+            n += 1
+            rep, info, key, what = r_ident({'p': p})
+            if rep:
+                bad.append((p, what, info))
+    for p, what, info in bad[:3]:
+        run.counterexample('identifier-part:boundary:%r' % p, what, {'harness': 'ident_boundary', 'args': {'p': p}, 'native': info}, True)
+    run.ob(name, 'counterexample' if bad else 'discharged', '%d parts printed and parsed back natively, %d fail' % (n, len(bad)))
+    run.validated += n
+
+
 def r_var(args):
     from mindsdb_sql import parse_sql
     from mindsdb_sql.parser.ast import Variable, Select
@@ -403,6 +426,7 @@ def run(tier):
         import traceback
         run.error('LEXZ3 part crashed: %r %s' % (e, traceback.format_exc()[-300:]))
     ch_obligations(run, HARNESS, specs(), cond_to=150 if tier == 'quick' else 900)
+    ident_boundary(run)
     try:
         skeleton_part(run, tier)
     except Exception as e:  # noqa
